@@ -192,7 +192,8 @@ def any_decls(tier='quick') -> List[Decl]:
 
 
 def verus_catalogue(tier='quick', seed=0) -> List[Decl]:
-    return int_decls(tier) + string_decls(tier) + any_decls(tier)
+    from .spellings import string_spellings
+    return int_decls(tier) + string_decls(tier) + any_decls(tier) + string_spellings(tier)
 
 
 def all_decls(tier='thorough', seed=0):
